@@ -1,1 +1,3 @@
 import Martian.Props.C07
+open Martian.Props.C07
+#print axioms reachable_invariant
